@@ -27,7 +27,7 @@ import irispie as ir
 from .common import Ctx, Rng, rat_of_float, VERIF
 
 DRIVERS = ["C01"]
-EXTRA_PROPS = ["QMatBridge", "C01QZ", "BridgeC01Sim"]   # refinement bridge: the executable QMat model satisfies the hypotheses of the matrix-level theorems
+EXTRA_PROPS = ["QMatBridge", "C01QZ", "BridgeC01Sim", "C01State"]   # refinement bridge: the executable QMat model satisfies the hypotheses of the matrix-level theorems
 LEVEL = "proof"
 MANIFEST = {
     "category": "proof",
@@ -1122,6 +1122,18 @@ def check_model(ctx: Ctx, i, r: Rng, spec, verdict, lines: dict, n_cases: int):
         ctx.count("variant-model:" + ("linear" if spec["linear"] else "not-linear"))
         ctx.nontriv(("variant", spec["variant"], len(spec["variants"]), spec["linear"], d["maxlead"] > 0))
         oracle_multivariant_simulate(ctx, b, gen_sim_case(r.fork("mvcase"), spec), tag)
+    if b.m_all is not None and spec["variant"] == 0:
+        V = len(spec["variants"])
+        pcase = gen_sim_case(r.fork("plancase"), spec)
+        for (n_, M_, D_) in [(V, V, 1), (V, V, V), (V, V, 2 if V != 2 else 3), (2, 1, 2), (2, 1, 1)]:
+            lines["plan"].append((dict(tag, plan=[n_, M_, D_], case=pcase), f"plan {n_} {M_} {D_}", impl_variant_plan(b, pcase, n_, M_, D_)))
+    if spec["linear"] and b.m_all is None:
+        try:
+            it = memo_stream_item(b, r.fork("memo"), tag)
+            if it is not None:
+                lines["memo"].append(it)
+        except Exception as e:
+            ctx.fail("expansion-raises", tag, repr(e)[:300])
     lines["vec"].append((tag, vec_line(b), vec_impl(b)))
     lines["cert"].append((tag, cert_line(b), b))
     lines["sqtri"].append((tag, sqtri_line(b), b))
@@ -1228,7 +1240,7 @@ def gen_history(rng: Rng, spec):
     return {"spec": sp0, "values": values, "ops": ops, "hseed": int(rng.next() % (1 << 31))}
 
 
-def run_history(ctx: Ctx, model_id, hist) -> bool:
+def run_history(ctx: Ctx, model_id, hist, lines=None) -> bool:
     """every step of the history is judged with the parameters in force for the object it runs on"""
     sp0, values, ops = hist["spec"], hist["values"], hist["ops"]
     hr = Rng(int(hist["hseed"]))
@@ -1243,6 +1255,16 @@ def run_history(ctx: Ctx, model_id, hist) -> bool:
     m = b.m
     copies = []          # (model copy, index of the parameterisation in force when it was taken)
     ok = True
+    try:
+        fresh = [build_model(with_param_values(sp0, vals)).sol for vals in values]
+    except Exception:
+        fresh = None
+    tokens, observed = [], []
+
+    def observe(mobj, idx_in_force, deviation):
+        if fresh is not None:
+            idx, kzero = which_parameterisation(mobj, deviation, fresh)
+            observed.append(obs_token(idx_in_force, idx, kzero, deviation))
     ctx.count("history")
     ctx.count(f"history:reparameterisations={len(values) - 1}")
     for step, op in enumerate(ops):
@@ -1252,15 +1274,19 @@ def run_history(ctx: Ctx, model_id, hist) -> bool:
         if op == "dev":
             ok = oracle_equations(ctx, b, case, stag, deviation=True) and ok
             ok = oracle_level_steady_deviation(ctx, b, case, stag) and ok
+            tokens.append("d"); observe(m, cur, True)
         elif op == "lev":
             ok = oracle_equations(ctx, b, case, stag, deviation=False) and ok
+            tokens.append("l"); observe(m, cur, False)
         elif op == "copy":
+            tokens.append("c")
             try:
                 copies.append((m.copy(), cur))
             except Exception as e:
                 ctx.fail("copy-raises", stag, repr(e)[:300]); return False
         elif op == "reparam":
             cur += 1
+            tokens += [f"a{cur}", "s"]
             spec_cur = with_param_values(sp0, values[cur])
             try:
                 m.assign(**spec_source(spec_cur)[1])
@@ -1272,7 +1298,9 @@ def run_history(ctx: Ctx, model_id, hist) -> bool:
                 ctx.fail("solve-raises-on-determinate-model", stag, repr(e)[:300]); return False
         elif op == "check-copies":
             # a copy follows the parameterisation in force when it was taken, whatever happened to the original afterwards
+            tokens.append(f"k{len(copies)}")
             for k, (c, idx) in enumerate(copies):
+                observe(c, idx, True); observe(c, idx, False)
                 bc = built_from_model(with_param_values(sp0, values[idx]), c)
                 ctag = dict(stag, copy=k)
                 ok = oracle_equations(ctx, bc, case, ctag, deviation=True) and ok
@@ -1281,7 +1309,89 @@ def run_history(ctx: Ctx, model_id, hist) -> bool:
             break
     if ok:
         ctx.nontriv(("history", len(values), tuple(ops)[:6], sp0["linear"], max(spec_shift_ranges(sp0)[1]) > 0))
+    if fresh is not None and lines is not None:
+        lines["hist"].append((tag, "hist " + " ".join(tokens), ",".join(observed)))
     return ok
+
+
+def memo_stream_item(b: Built, r: Rng, tag):
+    """a sequence of horizon requests on ONE Solution object (the memo `square_expansion` of _get_solution_expansion), dyadic matrices"""
+    if b.sol.J.shape[0] == 0 or b.sol.P.shape[1] == 0:
+        return None
+    mats = random_dyadic_solution(r.fork("memosol"), b)
+    fs = [r.randint(0, 5) for _ in range(r.randint(3, 6))]
+    with OverriddenSolution(b, mats):
+        sol = b.m._variants[0].solution
+        outs = []
+        for f in fs:
+            outs.append(" ; ".join(mat_text(R) for R in sol.expand_square_solution(f)))
+    line = "memo " + " ".join(mat_text(mats[k]) for k in ("P", "X", "J", "Ru")) + " F " + " ".join(str(f) for f in fs)
+    return (dict(tag, requests=fs), line, " | ".join(outs))
+
+
+def which_parameterisation(mobj, deviation, fresh) -> tuple[int, bool]:
+    """index of the parameterisation whose FRESH solution the object uses for `_gets_solution(deviation)`; K zero as it should be?"""
+    sol = mobj._gets_solution(deviation=deviation)
+    hits = []
+    for idx, fs in enumerate(fresh):
+        sc = 1.0 + max(float(np.max(np.abs(fs.T))) if fs.T.size else 0.0, float(np.max(np.abs(fs.P))) if fs.P.size else 0.0)
+        dT = float(np.max(np.abs(sol.T - fs.T))) if fs.T.size else 0.0
+        dP = float(np.max(np.abs(sol.P - fs.P))) if fs.P.size else 0.0
+        dZ = float(np.max(np.abs(sol.Z - fs.Z))) if fs.Z.size else 0.0
+        if max(dT, dP, dZ) <= 1e-9 * sc:
+            hits.append(idx)
+    kzero = bool(np.all(sol.K == 0)) and bool(np.all(np.asarray(sol.D) == 0))
+    return (hits[0] if len(hits) == 1 else -1), kzero
+
+
+def obs_token(cur, idx, kzero, deviation) -> str:
+    return f"{cur}:{idx}:{'D' if deviation else 'L'}" + ("" if (kzero or not deviation) else "!")
+
+
+def impl_variant_plan(b: Built, case, n, M, D) -> str:
+    """which (model variant, data variant) produced output k of a multi-variant simulation -- found by matching each output column
+    against single-variant simulations of every candidate pair"""
+    spec = b.spec
+    V = len(spec["variants"])
+    model = b.m_all if M == V else b.m_all.get_variant(0)
+    singles = [b.m_all.get_variant(i) for i in range(V if M == V else 1)]
+    t0 = start_period(case["freq"])
+    L, nper = case["maxlag"], case["nper"]
+    span = t0 >> (t0 + nper - 1)
+
+    def databox(cols):
+        db = ir.Databox()
+        for j in range(spec["n"]):
+            vals = np.array([[case["init"][j][k] + 0.5 * c for c in cols] for k in range(L)], dtype=float)
+            if spec["logly"][j]:
+                vals = np.exp(vals)
+            db[xname(j)] = ir.Series(start=t0 - L, values=vals)
+        for k in range(spec["ns"]):
+            db[ename(k)] = ir.Series(start=t0, values=np.array(case["u"][k], dtype=float))
+            db["ant_" + ename(k)] = ir.Series(start=t0, values=np.array(case["v"][k], dtype=float))
+        for k in range(spec["nw"]):
+            db[wname(k)] = ir.Series(start=t0, values=np.array(case["w"][k], dtype=float))
+        return db
+    try:
+        out = model.simulate(databox(list(range(D))), span, method="first_order", num_variants=n)
+    except Exception:
+        return "err:bad"
+    ref = {}
+    for mi, sm in enumerate(singles):
+        for di in range(D):
+            o = sm.simulate(databox([di]), span, method="first_order")
+            ref[(mi, di)] = np.array([np.asarray(o[xname(j)].get_data(span), dtype=float).ravel() for j in range(spec["n"])])
+    plan = []
+    for k in range(n):
+        col = []
+        for j in range(spec["n"]):
+            a = np.asarray(out[xname(j)].get_data(span), dtype=float)
+            a = a.reshape(a.shape[0], -1)
+            col.append(a[:, k] if a.shape[1] > k else np.full(a.shape[0], np.nan))
+        col = np.array(col)
+        hits = [key for key, rv in ref.items() if np.all(np.isfinite(col)) and np.max(np.abs(col - rv)) <= 1e-9 * (1 + np.max(np.abs(rv)))]
+        plan.append(f"{hits[0][0]}:{hits[0][1]}" if len(hits) == 1 else "?")
+    return ",".join(plan)
 
 
 def check_measurement_lead(ctx: Ctx, r: Rng, spec, tag):
@@ -1299,7 +1409,7 @@ def check_measurement_lead(ctx: Ctx, r: Rng, spec, tag):
 
 def flush_lines(ctx: Ctx, lines: dict):
     """send the queued requests through the Lean driver (one process for all streams) and compare"""
-    order = ["vec", "simD", "stab", "cert", "sqtri", "simT"]
+    order = ["vec", "simD", "stab", "cert", "sqtri", "simT", "memo", "hist", "plan"]
     allreq = [l for k in order for (_, l, _) in lines[k]]
     allrep = ctx.model("C01", allreq)
     rep_of, pos = {}, 0
@@ -1316,6 +1426,10 @@ def flush_lines(ctx: Ctx, lines: dict):
     replies = rep_of["simD"]
     ctx.compare("simulate-dyadic", [{"model": t["model"], "spec": t["spec"], "case": t["case"], "override": True, "seedtag": t["seedtag"]} for (t, _, _) in items],
                 [imp for (_, _, imp) in items], replies)
+    # class D: expansion memo (sequence of horizon requests on one object); class E: history state machine, variant plan
+    for key, stream in (("memo", "expansion-memo"), ("hist", "history-state"), ("plan", "variant-plan")):
+        items = lines[key]
+        ctx.compare(stream, [{k: v for k, v in t.items() if k != "family"} for (t, _, _) in items], [imp for (_, _, imp) in items], rep_of[key])
     # stability certificate
     items = lines["stab"]
     replies = rep_of["stab"]
@@ -1412,7 +1526,7 @@ def exact_certificate_cases():
 
 
 def new_lines():
-    return {"vec": [], "cert": [], "stab": [], "simT": [], "simD": [], "sqtri": []}
+    return {"vec": [], "cert": [], "stab": [], "simT": [], "simD": [], "sqtri": [], "memo": [], "hist": [], "plan": []}
 
 
 def replay_corpus(ctx: Ctx):
@@ -1444,7 +1558,7 @@ def run(ctx: Ctx):
     for (i, r, spec, verdict) in models_for_run(ctx, ctx.n(45, 400), tag="hist"):
         hist = gen_history(r.fork("history"), spec)
         if hist is not None:
-            run_history(ctx, f"h{i}", hist)
+            run_history(ctx, f"h{i}", hist, lines)
             n_hist += 1
     ctx.extra["histories"] = n_hist
     flush_lines(ctx, lines)
@@ -1501,7 +1615,9 @@ def replay(ctx: Ctx, payload):
             return
         if "history" in case:
             ctx.extra["programs"] = ctx.extra.get("programs", 0) + 1
-            run_history(ctx, case.get("model", 0), case["history"])
+            hl = new_lines()
+            run_history(ctx, case.get("model", 0), case["history"], hl)
+            flush_lines(ctx, hl)
             return
         try:
             b = build_model(spec)
